@@ -281,6 +281,40 @@ def eval_rto(cell):
         res.outcomes.add("%s:%.4g" % (facet, float(z0[0])))
         if res.sample is None:
             res.sample = {"prior_form": pf, "offset": z0, "posterior_mean": mean_ref, "TTt": T @ T.T, "posterior_cov": cov_ref}
+        # ---- non-initial state: the SAME prior object after its precision was re-assigned (its square-root precision was
+        #      read by the run above); a new posterior built on it must again give exact draws for the new precision
+        if kind == "gmrf" and cell["tier"] != "quick" or (kind == "gmrf" and pf[1] == 1):
+            try:
+                # posteriors built DIRECTLY on the prior object (conditioning a joint would hand a copy to the sampler)
+                def direct_posterior():
+                    yy = cuqi.distribution.Gaussian(make_model(As[0], backing)(x), name="y0", **{lp: form_value(lp, lk, Cls[0])})
+                    return cuqi.distribution.Posterior(yy.to_likelihood(ds[0]), x)
+                if nl != 1:
+                    raise RuntimeError("single-likelihood cells only")
+                one_step(use_iface, "LinearRTO", direct_posterior(), np.zeros(n), np.zeros(nd))   # first use of x
+                prec2 = prec * 4.0
+                x.prec = prec2
+                target2 = direct_posterior()
+                P2 = prec2 * D.T @ D
+                H2 = P2.copy()
+                rhs2 = P2 @ m0
+                for i in range(nl):
+                    Li = np.linalg.inv(Cls[i])
+                    H2 = H2 + As[i].T @ Li @ As[i]
+                    rhs2 = rhs2 + As[i].T @ Li @ ds[i]
+                cov2 = np.linalg.inv(H2)
+                z2, T2, aff2 = affine_probe(lambda e: one_step(use_iface, "LinearRTO", target2, np.zeros(n), e)[0], nd)
+            except Exception as e:
+                res.outcomes.add("reassigned-prior-refused:%s" % type(e).__name__)
+            else:
+                res.transitions += nd + 2
+                res.traces += 1
+                res.evaluations += 1
+                res.state("reassigned-prior:%s" % (pf,))
+                if not (aff2 and close(z2, cov2 @ rhs2, 1e-7) and close(T2 @ T2.T, cov2, 1e-7)):
+                    res.fail("C06|%s|after-prior-reassignment|%s" % (comp, facet), "after the precision of the SAME GMRF prior object was "
+                             "re-assigned, the RTO draw is not an exact draw for the new posterior (offset %s vs mean %s)"
+                             % (z2, cov2 @ rhs2), focus={"prior": pf})
     res.nontrivial = nontriv
     return res
 
